@@ -1238,7 +1238,17 @@ func checkRuntimeAPIServerPlain(c *report.Ctx) {
 		}
 	}
 	sort.Strings(fields)
-	c.Check("R-SHAPE", an.FuncName(f)+"/plain-http-server", "the Runtime API server sets Handler and ConnContext only (no header-size limit, no timeouts)", strings.Join(fields, ",") == "ConnContext,Handler", fpos(f), len(fields), "http.Server fields set: %v", fields)
+	has := map[string]bool{}
+	for _, x := range fields {
+		has[x] = true
+	}
+	var limits []string
+	for _, x := range []string{"MaxHeaderBytes", "ReadTimeout", "ReadHeaderTimeout", "WriteTimeout", "IdleTimeout"} {
+		if has[x] {
+			limits = append(limits, x)
+		}
+	}
+	c.Check("R-SHAPE", an.FuncName(f)+"/plain-http-server", "the Runtime API server has its handler and connection context and no header-size limit or timeout", has["Handler"] && has["ConnContext"] && len(limits) == 0, fpos(f), len(fields), "http.Server fields set: %v; limits among them: %v", fields, limits)
 }
 
 // checkMiddlewareLeavesHeadersAlone (C13): middleware runs in front of every handler; the identifier and the
